@@ -90,33 +90,53 @@ VerClasses   == {"ok", "empty", "t1", "t2", "t3", "t4", "one", "dot0", "patch", 
 TopicClasses == {"ok", "nil", "empty", "trunc", "upper", "sibling"}
 InstVals     == {"p1", "m1", "zero", "p63", "max"}
 
-SDev(s) == B(s.ty # s.topic) + B(s.bytes # "none") + B(s.recv # "ready") + HdrCost * (B(s.ver # "ok") + B(s.tp # "ok"))
+SDev(s) == B(s.ty # s.topic) + B(s.bytes # "none") + B(s.recv # "ready")
+           + HdrCost * (B(s.ver # "ok") + B(s.tp # "ok") + B(s.trace # "absent"))
 
 (* the two small extra families:
    send    gnosis / service keypers, shares topic, receiver "primed" (threshold of signatures and
            the keys are there: the flavour handler answers with a keys message), canonical message
            and its single deviations
    stress  access node, keys topic, receiver "ready", canonical message and the unknown / overflow set *)
+HdrOk(s) == s.ver = "ok" /\ s.tp = "ok" /\ s.instv = "p1"
+SendShares(s) == s.fl \in {"gnosis", "service"} /\ s.topic = "shares" /\ s.trace = "absent" /\ s.tracing = "off"
 ModeOk(s) ==
-    CASE s.mode = "handle" -> SDev(s) <= MaxDev
-      [] s.mode = "send"   -> s.ver = "ok" /\ s.tp = "ok" /\ s.instv = "p1" /\ s.fl \in {"gnosis", "service"} /\ s.topic = "shares" /\ s.ty = "shares" /\ s.bytes = "none" /\ s.recv = "primed"
-      [] s.mode = "stress" -> s.ver = "ok" /\ s.tp = "ok" /\ s.instv = "p1" /\ s.fl = "access" /\ s.topic = "keys" /\ s.ty = "keys" /\ s.bytes = "none" /\ s.recv = "ready"
-BudgetA(s) == IF s.mode = "handle" THEN MaxDev - SDev(s) ELSE 1
+    CASE s.mode = "handle" -> s.tracing = "off" /\ SDev(s) <= MaxDev
+      \* send: (a) gnosis / service shares, canonical message and its single deviations;
+      \*       (b) every flavour and topic, canonical message, every trace class, tracing on and off
+      [] s.mode = "send"   -> HdrOk(s) /\ s.ty = s.topic /\ s.bytes = "none" /\ s.recv = "primed"
+      [] s.mode = "stress" -> HdrOk(s) /\ s.trace = "absent" /\ s.tracing = "off" /\ s.fl = "access" /\ s.topic = "keys" /\ s.ty = "keys"
+                              /\ s.bytes = "none" /\ s.recv = "ready"
+BudgetA(s) == CASE s.mode = "handle" -> MaxDev - SDev(s) [] s.mode = "send" -> (IF SendShares(s) THEN 1 ELSE 0) [] OTHER -> 1
 (* the carried instance id value is a refinement of inst = FALSE *)
 AOk(s, a) == /\ (a.inst => s.instv = "p1")
              /\ (IF s.ty = "commitment" THEN ~(a.lens = "idsMore" /\ a.nids = 0) ELSE TRUE)   \* no list shorter than the empty one
              /\ IF s.mode # "stress" THEN TRUE ELSE (DevA(s.ty, a) = 0 \/ a.set # "MemberOk")
-BudgetB(s) == CASE s.mode = "handle" -> MaxDev - s.dev [] s.mode = "send" -> 1 - s.dev [] OTHER -> 0
+BudgetB(s) == CASE s.mode = "handle" -> MaxDev - s.dev [] s.mode = "send" -> (IF SendShares(s) THEN 1 - s.dev ELSE 0) [] OTHER -> 0
+
+Seed(fl, topic, ty, by, rs, mo, ve, tp, iv, tr, tg) ==
+    [fl |-> fl, topic |-> topic, ty |-> ty, bytes |-> by, recv |-> rs, dev |-> 0, mode |-> mo, ver |-> ve, tp |-> tp, instv |-> iv,
+     trace |-> tr, tracing |-> tg]
+
+(* header class triples that fit into the deviation budget at all (evaluated once) *)
+HdrTriples == TLCEval({h \in VerClasses \X TopicClasses \X TraceClasses :
+                          HdrCost * (B(h[1] # "ok") + B(h[2] # "ok") + B(h[3] # "absent")) <= MaxDev})
 
 Init ==
     /\ stage = 0
-    /\ \E fl \in MCFlavours : \E topic \in Topics(fl) : \E ty \in MsgTypes : \E by \in ByteClasses : \E rs \in RecvStates :
-       \E mo \in {"handle", "send", "stress"} : \E ve \in VerClasses : \E tp \in TopicClasses : \E iv \in InstVals :
-          /\ c = [fl |-> fl, topic |-> topic, ty |-> ty, bytes |-> by, recv |-> rs, dev |-> 0, mode |-> mo, ver |-> ve, tp |-> tp, instv |-> iv]
+    /\ \/ \E fl \in MCFlavours : \E topic \in Topics(fl) : \E ty \in MsgTypes : \E by \in ByteClasses : \E rs \in RecvStates :
+          \E h \in HdrTriples : \E iv \in InstVals :
+             /\ c = Seed(fl, topic, ty, by, rs, "handle", h[1], h[2], iv, h[3], "off")
+             /\ ModeOk(c)
+       \/ \E fl \in MCFlavours : \E topic \in Topics(fl) : \E tr \in TraceClasses : \E tg \in {"off", "on"} :
+             /\ c = Seed(fl, topic, topic, "none", "primed", "send", "ok", "ok", "p1", tr, tg)
+             /\ ModeOk(c)
+       \/ /\ "access" \in MCFlavours
+          /\ c = Seed("access", "keys", "keys", "none", "ready", "stress", "ok", "ok", "p1", "absent", "off")
           /\ ModeOk(c)
 
 Case(s, m) == [fl |-> s.fl, topic |-> s.topic, m |-> m, bytes |-> s.bytes, recv |-> s.recv, mode |-> s.mode,
-               ver |-> s.ver, tp |-> s.tp, instv |-> s.instv]
+               ver |-> s.ver, tp |-> s.tp, instv |-> s.instv, trace |-> s.trace, tracing |-> s.tracing]
 
 Next ==
     \/ /\ stage = 0
@@ -125,7 +145,7 @@ Next ==
              /\ IF HasB(c.ty)
                 THEN /\ stage' = 1
                      /\ c' = [fl |-> c.fl, topic |-> c.topic, ty |-> c.ty, bytes |-> c.bytes, recv |-> c.recv, mode |-> c.mode,
-                              ver |-> c.ver, tp |-> c.tp, instv |-> c.instv,
+                              ver |-> c.ver, tp |-> c.tp, instv |-> c.instv, trace |-> c.trace, tracing |-> c.tracing,
                               dev |-> (IF c.mode = "handle" THEN SDev(c) ELSE 0) + DevA(c.ty, a), a |-> a]
                 ELSE /\ stage' = 2
                      /\ c' = Case(c, Whole(c.ty, a))
